@@ -119,6 +119,20 @@ impl Variant {
         }
     }
 
+    /// Applies a leading minus of the expression to an evaluated column or function value.
+    pub fn with_sign(self, minus: bool) -> Variant {
+        if !minus {
+            return self;
+        }
+
+        match self.value_type {
+            VariantType::Int => Variant::from_int(-self.to_int()),
+            VariantType::Float => Variant::from_float(-self.to_float()),
+            VariantType::String => Variant::from_signed_string(&self.string_value, true),
+            _ => self,
+        }
+    }
+
     pub fn from_bool(value: bool) -> Variant {
         Variant {
             value_type: VariantType::Bool,
